@@ -16,7 +16,7 @@ REAL_TARGETS = ["2.7", "3.6", "3.7", "3.8", "3.9", "3.10", "3.11", "3.12", "3.13
 # versions with no interpreter -> (cousin interpreter whose code layout is identical)
 COUSIN = {"2.3": "2.7", "2.4": "2.7", "2.5": "2.7", "2.6": "2.7",
           "3.0": "3.7", "3.1": "3.7", "3.2": "3.7", "3.3": "3.7", "3.4": "3.7", "3.5": "3.7",
-          "2.1": "2.7", "2.2": "2.7"}
+          "2.1": "2.7", "2.2": "2.7", "2.0": "2.7"}
 # PyPy writes the marshal format of the CPython level it implements under its own magic number (PyPy's
 # pypy/interpreter/pycode.py; the numbers are also the ones of the sample files under test/bytecode_pypy*)
 PYPY = {"pypy2.7": (62218, "2.7"), "pypy3.5": (112, "3.5"), "pypy3.6": (192, "3.6"), "pypy3.7": (240, "3.7"),
